@@ -658,6 +658,13 @@ func proxiesAreNotBuiltOnNilPointers(c *core.Ctx) {
 		core.Undecidedf("no function of package object constructs a Proxy")
 	}
 	n := 0
+	// an exported constructor is called by hosts as well: it looks at the pointer itself
+	if ctor.Object() != nil && ctor.Object().Exported() {
+		n++
+		okc := hasNilTest(ctor, nil)
+		c.Check(okc, core.SSAName(ctor)+"|exported-constructor-tests-the-pointer", p.Pos(ctor.Pos()),
+			ctor.Name()+" is exported and builds a proxy on whatever it is handed"+ife(okc, "; it tests a pointer for nil first", "; it does not test a pointer for nil: object.NewProxy((*T)(nil)) succeeds, and every attribute access on the result panics in reflect (\"call of reflect.Value.FieldByName on zero Value\")"))
+	}
 	for _, fn := range repoFns(p, "object") {
 		if fn == ctor {
 			continue
